@@ -106,14 +106,9 @@ let solve_m tag ao left n (a : qc array array) (b : qc array array) =
        | BOk l -> out (chol_solve_m f bs left l nn vecs)
        | _ -> None)
     else if tag = "indef" then
-      (* pivoting_lu_decomposition::solve(B, side): every column (left) / row (right) of B by the vector routine *)
+      (* pivoting_lu_decomposition::solve(B, side): swap, two blocked trsm (C02LUMatModel.lu_solve_m) *)
       (match getrf f qc_abs lubs bs nn t with
-       | LUOk (lu, p) ->
-         let o = orient_of ao in
-         let rec all = function [] -> Some [] | v :: r ->
-           (match (if left then lu_solve f o lu p nn v else lu_solve_right f o lu p nn v), all r with
-            | Some x, Some xs -> Some (x :: xs) | _ -> None) in
-         out (all vecs)
+       | LUOk (lu, p) -> out (lu_solve_m f bs left lu p nn vecs)
        | _ -> None)
     else raise Not_found
 
